@@ -72,12 +72,31 @@ theorem mode_step {s s' : State} {op : Op} {o : Obs} (h : modelOp s op = some (s
   case tick n => simp at h; rw [← h.1]
   case fault f => simp at h; rw [← h.1]
   case abandon k => simp at h; rw [← h.1]
+  case close ref =>
+    split at h
+    · split at h <;> simp at h <;> rw [← h.1]
+    · simp at h; rw [← h.1]
   all_goals simp at h
 
+/-- the environment's operations: the store starts / stops failing, the server closes a temporary session -/
+def isEnv : Op → Bool
+  | .fault _ | .close _ => true
+  | _ => false
+
 theorem op_trichotomy (op : Op) :
-    (∃ ref u k, op = .post ref u k) ∨ (∃ k, op = .release k) ∨
-    ((∀ ref u k, op ≠ .post ref u k) ∧ (∀ k, op ≠ .release k)) := by
-  cases op <;> simp
+    (∃ ref u k, op = .post ref u k) ∨ (∃ k, op = .release k) ∨ isEnv op = true ∨
+    ((∀ ref u k, op ≠ .post ref u k) ∧ (∀ k, op ≠ .release k) ∧ isEnv op = false) := by
+  cases op <;> simp [isEnv]
+
+theorem filter_split (l : List Nat) (k : Nat) :
+    (l.filter (· == k)).length + (l.filter (· != k)).length = l.length := by
+  induction l with
+  | nil => simp
+  | cons a t ih => by_cases h : a = k <;> simp [h] <;> omega
+
+theorem cls_filter (l : List Nat) (v : Nat) :
+    ((l.map fun _ => ((Tag.c 0, v) : Tag × Nat)).filter isPostTag) = [] := by
+  induction l <;> simp_all [isPostTag]
 
 /-! ## what one operation does (the only place where `modelOp` is unfolded) -/
 
@@ -113,7 +132,8 @@ theorem post_cases {s s' : State} {o : Obs} {ref : Ref} {u : UserTok} {k : PKind
 /-- `release`: at most the POST in that slot ends. -/
 theorem release_cases {s s' : State} {o : Obs} {k : Nat} (h : modelOp s (.release k) = some (s', o)) :
     s'.mode = s.mode ∧ s'.next = s.next ∧ o.hdr = none ∧ o.log = [] ∧ o.map = [] ∧ o.stale = [] ∧ o.srv = names s' ∧
-    o.status ≠ .pending ∧ (∀ p ∈ s'.slow, p ∈ s.slow) ∧ s'.slow.length + o.done.length ≤ s.slow.length := by
+    o.status ≠ .pending ∧ (∀ p ∈ s'.slow, p ∈ s.slow) ∧
+    s'.slow.length + s'.closing.length + o.done.length ≤ s.slow.length + s.closing.length := by
   simp only [modelOp] at h
   split at h
   · simp at h; obtain ⟨h1, h2⟩ := h; subst h1; subst h2; simp
@@ -127,12 +147,13 @@ theorem release_cases {s s' : State} {o : Obs} {k : Nat} (h : modelOp s (.releas
       have : (List.filter (fun x => x.slot != k) s.slow).length < s.slow.length := by
         apply List.length_filter_lt_length_iff_exists.mpr
         exact ⟨q, hm, by simpa using hp⟩
+      have := filter_split s.closing k
       omega
     · simp at h; obtain ⟨h1, h2⟩ := h; subst h1; subst h2; simp
 
 /-- GET, DELETE, other methods, `tick`, `fault`: answered at once, nothing changes. -/
 theorem quiet_cases {s s' : State} {o : Obs} {op : Op} (h : modelOp s op = some (s', o))
-    (hp : ∀ ref u k, op ≠ .post ref u k) (hr : ∀ k, op ≠ .release k) :
+    (hp : ∀ ref u k, op ≠ .post ref u k) (hr : ∀ k, op ≠ .release k) (hq : isEnv op = false) :
     s' = s ∧ o.hdr = none ∧ o.log = [] ∧ o.map = [] ∧ o.stale = [] ∧ o.srv = names s ∧ o.done = [] ∧
     o.status ≠ .pending := by
   cases op <;> simp only [modelOp] at h
@@ -142,13 +163,14 @@ theorem quiet_cases {s s' : State} {o : Obs} {op : Op} (h : modelOp s op = some 
   case delete ref u => cases hm : s.mode <;> simp [hm] at h <;> obtain ⟨h1, h2⟩ := h <;> subst h1 <;> subst h2 <;> simp [rejectObs]
   case other ref u => cases hm : s.mode <;> simp [hm] at h <;> obtain ⟨h1, h2⟩ := h <;> subst h1 <;> subst h2 <;> simp [rejectObs]
   case tick n => simp at h; obtain ⟨h1, h2⟩ := h; subst h1; subst h2; simp
-  case fault f => simp at h; obtain ⟨h1, h2⟩ := h; subst h1; subst h2; simp; split <;> simp
+  case fault f => simp [isEnv] at hq
+  case close ref => simp [isEnv] at hq
   case abandon k => simp at h; obtain ⟨h1, h2⟩ := h; subst h1; subst h2; simp; split <;> simp
   all_goals simp at h
 
 /-- … and the event store is told nothing. -/
 theorem quiet_closed {s s' : State} {o : Obs} {op : Op} (h : modelOp s op = some (s', o))
-    (hp : ∀ ref u k, op ≠ .post ref u k) (hr : ∀ k, op ≠ .release k) : o.closed = [] := by
+    (hp : ∀ ref u k, op ≠ .post ref u k) (hr : ∀ k, op ≠ .release k) (hq : isEnv op = false) : o.closed = [] := by
   cases op <;> simp only [modelOp] at h
   case post ref u k => exact absurd rfl (hp ref u k)
   case release k => exact absurd rfl (hr k)
@@ -156,9 +178,28 @@ theorem quiet_closed {s s' : State} {o : Obs} {op : Op} (h : modelOp s op = some
   case delete ref u => cases hm : s.mode <;> simp [hm] at h <;> obtain ⟨h1, h2⟩ := h <;> subst h1 <;> subst h2 <;> simp [rejectObs]
   case other ref u => cases hm : s.mode <;> simp [hm] at h <;> obtain ⟨h1, h2⟩ := h <;> subst h1 <;> subst h2 <;> simp [rejectObs]
   case tick n => simp at h; obtain ⟨h1, h2⟩ := h; subst h1; subst h2; simp
-  case fault f => simp at h; obtain ⟨h1, h2⟩ := h; subst h1; subst h2; simp
+  case fault f => simp [isEnv] at hq
+  case close ref => simp [isEnv] at hq
   case abandon k => simp at h; obtain ⟨h1, h2⟩ := h; subst h1; subst h2; simp
   all_goals simp at h
+
+/-- `fault`, `close`: the environment acts — no temporary session begins or ends, nothing is answered to a client;
+a server-side `Close()` that found its session waits (`pending`) for the running handler. -/
+theorem env_cases {s s' : State} {o : Obs} {op : Op} (h : modelOp s op = some (s', o)) (he : isEnv op = true) :
+    s'.slow = s.slow ∧ s'.next = s.next ∧ o.hdr = none ∧ o.log = [] ∧ o.map = [] ∧ o.stale = [] ∧ o.srv = names s' ∧
+    o.done = [] ∧ o.closed = [] ∧ served s.mode op = false ∧ chkAnswer s.mode op o.status = none ∧
+    s'.closing.length = s.closing.length + (if o.status = .pending then 1 else 0) := by
+  cases op <;> simp [isEnv] at he <;> simp only [modelOp] at h
+  case fault f =>
+    simp at h; obtain ⟨h1, h2⟩ := h; subst h1; subst h2
+    simp [names, served, chkAnswer]; split <;> simp
+  case close ref =>
+    split at h
+    · split at h
+      · simp at h; obtain ⟨h1, h2⟩ := h; subst h1; subst h2; simp [names, served, chkAnswer]
+      · simp at h; obtain ⟨h1, h2⟩ := h; subst h1; subst h2; simp [names, served, chkAnswer]
+      · simp at h
+    · simp at h; obtain ⟨h1, h2⟩ := h; subst h1; subst h2; simp [names, served, chkAnswer]
 
 theorem es_step {s s' : State} {op : Op} {o : Obs} (h : modelOp s op = some (s', o)) : s'.es = s.es := by
   cases op <;> simp only [modelOp] at h
@@ -178,6 +219,10 @@ theorem es_step {s s' : State} {op : Op} {o : Obs} (h : modelOp s op = some (s',
   case tick n => simp at h; rw [← h.1]
   case fault f => simp at h; rw [← h.1]
   case abandon k => simp at h; rw [← h.1]
+  case close ref =>
+    split at h
+    · split at h <;> simp at h <;> rw [← h.1]
+    · simp at h; rw [← h.1]
   all_goals simp at h
 
 /-- **The event store is told exactly once per temporary session that ends** (`streamableServerConn.Close` →
@@ -185,7 +230,7 @@ theorem es_step {s s' : State} {op : Op} {o : Obs} (h : modelOp s op = some (s',
 client has gone away (`abandon`) and whatever `SessionClosed` returns; never for a refused request, never without a store. -/
 theorem told_step {s s' : State} {op : Op} {o : Obs} (h : modelOp s op = some (s', o)) :
     o.closed.length = if s.es then ended s.mode op o else 0 := by
-  rcases op_trichotomy op with ⟨ref, u, k, rfl⟩ | ⟨k, rfl⟩ | ⟨hp, hr⟩
+  rcases op_trichotomy op with ⟨ref, u, k, rfl⟩ | ⟨k, rfl⟩ | he | ⟨hp, hr, hq⟩
   · simp only [modelOp] at h
     split at h
     · rename_i hc
@@ -212,10 +257,12 @@ theorem told_step {s s' : State} {op : Op} {o : Obs} (h : modelOp s op = some (s
     · simp at h; obtain ⟨h1, h2⟩ := h; subst h1; subst h2; simp [ended, served]
     · split at h
       · simp at h; obtain ⟨h1, h2⟩ := h; subst h1; subst h2
-        simp [ended, served, told]; split <;> simp
+        simp [ended, served, told, List.filter_cons, isPostTag, cls_filter]; split <;> simp
       · simp at h; obtain ⟨h1, h2⟩ := h; subst h1; subst h2; simp [ended, served]
-  · have hc := quiet_closed h hp hr
-    have hd := (quiet_cases h hp hr).2.2.2.2.2.2.1
+  · obtain ⟨_, _, _, _, _, _, _, hd, hc, hs, _, _⟩ := env_cases h he
+    simp [hc, ended, hs, hd]
+  · have hc := quiet_closed h hp hr hq
+    have hd := (quiet_cases h hp hr hq).2.2.2.2.2.2.1
     have hs : served s.mode op = false := by
       cases op <;> simp [served]
       case post ref u k => exact absurd rfl (hp ref u k)
@@ -224,17 +271,18 @@ theorem told_step {s s' : State} {op : Op} {o : Obs} (h : modelOp s op = some (s
 /-! ## one step -/
 
 theorem next_mono {s s' : State} {op : Op} {o : Obs} (h : modelOp s op = some (s', o)) : s.next ≤ s'.next := by
-  rcases op_trichotomy op with ⟨ref, u, k, rfl⟩ | ⟨k, rfl⟩ | ⟨hp, hr⟩
+  rcases op_trichotomy op with ⟨ref, u, k, rfl⟩ | ⟨k, rfl⟩ | he | ⟨hp, hr, hq⟩
   · rcases post_cases h with ⟨_, _, _, _, hn⟩ | ⟨_, nm, _, hn, _⟩
     · omega
     · rw [hn]; split <;> omega
   · have := (release_cases h).2.1; omega
-  · rw [(quiet_cases h hp hr).1]; exact Nat.le_refl _
+  · have := (env_cases h he).2.1; omega
+  · rw [(quiet_cases h hp hr hq).1]; exact Nat.le_refl _
 
 theorem good_step {s s' : State} {op : Op} {o : Obs} (g : Good s) (h : modelOp s op = some (s', o)) : Good s' := by
   have hmode := mode_step h
   have hmono := next_mono h
-  rcases op_trichotomy op with ⟨ref, u, k, rfl⟩ | ⟨k, rfl⟩ | ⟨hp, hr⟩
+  rcases op_trichotomy op with ⟨ref, u, k, rfl⟩ | ⟨k, rfl⟩ | he | ⟨hp, hr, hq⟩
   · rcases post_cases h with ⟨_, _, _, hs, hn⟩ | ⟨hc, nm, hnm, hn, _, _, _, _, _, hslow, hfast⟩
     · exact ⟨by rw [hs, hn]; exact g.ord, by rw [hs, hmode]; exact g.empty⟩
     · by_cases hk : k = .slow
@@ -276,36 +324,55 @@ theorem good_step {s s' : State} {op : Op} {o : Obs} (g : Good s) (h : modelOp s
   · obtain ⟨_, _, _, _, _, _, _, _, hsub, _⟩ := release_cases h
     exact ⟨fun p hp => Nat.le_trans (g.ord p (hsub p hp)) hmono,
            fun hno p hp => by rw [hmode] at hno; exact g.empty hno p (hsub p hp)⟩
-  · rw [(quiet_cases h hp hr).1]; exact g
+  · obtain ⟨hs, hn, _⟩ := env_cases h he
+    exact ⟨fun p hp => by rw [hs] at hp; rw [hn]; exact g.ord p hp,
+           fun hno p hp => by rw [hs] at hp; rw [hmode] at hno; exact g.empty hno p hp⟩
+  · rw [(quiet_cases h hp hr hq).1]; exact g
 
 /-- **Nothing is kept** and **the server lists exactly the POSTs in progress**: after every operation the
 handler's table is empty, no idle timer exists, and `Server.Sessions()` is the list of the temporary sessions
 whose POST has not ended — a temporary session is closed and forgotten when its POST ends. -/
 theorem nothing_kept_step {s s' : State} {op : Op} {o : Obs} (h : modelOp s op = some (s', o)) :
     o.map = [] ∧ o.stale = [] ∧ o.srv = names s' := by
-  rcases op_trichotomy op with ⟨ref, u, k, rfl⟩ | ⟨k, rfl⟩ | ⟨hp, hr⟩
+  rcases op_trichotomy op with ⟨ref, u, k, rfl⟩ | ⟨k, rfl⟩ | he | ⟨hp, hr, hq⟩
   · rcases post_cases h with ⟨_, _, ho, _, _⟩ | ⟨_, nm, _, _, _, hm, hst, hsrv, _⟩
     · subst ho; simp [rejectObs]
     · exact ⟨hm, hst, hsrv⟩
   · obtain ⟨_, _, _, _, hm, hst, hsrv, _⟩ := release_cases h
     exact ⟨hm, hst, hsrv⟩
-  · obtain ⟨hs, _, _, hm, hst, hsrv, _⟩ := quiet_cases h hp hr
+  · obtain ⟨_, _, _, _, hm, hst, hsrv, _⟩ := env_cases h he
+    exact ⟨hm, hst, hsrv⟩
+  · obtain ⟨hs, _, _, hm, hst, hsrv, _⟩ := quiet_cases h hp hr hq
     rw [hs]; exact ⟨hm, hst, hsrv⟩
 
-/-- The POSTs in progress are counted by the answers: one more for each `pending`, one less for each completion. -/
+theorem closing_post {s s' : State} {o : Obs} {ref : Ref} {u : UserTok} {k : PKind}
+    (h : modelOp s (.post ref u k) = some (s', o)) : s'.closing = s.closing := by
+  simp only [modelOp] at h
+  split at h
+  · simp at h; rw [← h.1]; split <;> rfl
+  · split at h
+    · simp at h
+    · cases k <;> simp at h <;> rw [← h.1] <;> (repeat' split) <;> rfl
+
+/-- What is in progress (parked POSTs and server-side `Close()` calls that wait for one) is counted by the answers:
+one more for each `pending`, one less for each completion. -/
 theorem inprog_step {s s' : State} {op : Op} {o : Obs} (h : modelOp s op = some (s', o)) :
-    s'.slow.length + o.done.length ≤ s.slow.length + (if o.status = .pending then 1 else 0) := by
-  rcases op_trichotomy op with ⟨ref, u, k, rfl⟩ | ⟨k, rfl⟩ | ⟨hp, hr⟩
-  · rcases post_cases h with ⟨_, _, ho, hs, _⟩ | ⟨_, nm, _, _, _, _, _, _, hd, hslow, hfast⟩
-    · subst ho; simp [rejectObs, hs]
+    s'.slow.length + s'.closing.length + o.done.length ≤
+      s.slow.length + s.closing.length + (if o.status = .pending then 1 else 0) := by
+  rcases op_trichotomy op with ⟨ref, u, k, rfl⟩ | ⟨k, rfl⟩ | he | ⟨hp, hr, hq⟩
+  · have hcl := closing_post h
+    rcases post_cases h with ⟨_, _, ho, hs, _⟩ | ⟨_, nm, _, _, _, _, _, _, hd, hslow, hfast⟩
+    · subst ho; simp [rejectObs, hs, hcl]
     · by_cases hk : k = .slow
       · obtain ⟨hst, _, slot, hs⟩ := hslow hk
-        simp [hd, hst, hs]
+        simp [hd, hst, hs, hcl]; omega
       · obtain ⟨hs, _, _⟩ := hfast hk
-        simp [hd, hs]
+        simp [hd, hs, hcl]
   · have := (release_cases h).2.2.2.2.2.2.2.2.2
     omega
-  · obtain ⟨hs, _, _, _, _, _, hd, _⟩ := quiet_cases h hp hr
+  · obtain ⟨hs, _, _, _, _, _, _, hd, _, _, _, hc⟩ := env_cases h he
+    rw [hs, hd, hc]; simp; omega
+  · obtain ⟨hs, _, _, _, _, _, hd, _⟩ := quiet_cases h hp hr hq
     simp [hs, hd]
 
 /-- `noIds` **neither issues nor shows an id**: no `Mcp-Session-Id`, every handler runs on a session without id,
@@ -322,7 +389,7 @@ theorem noids_step {s s' : State} {op : Op} {o : Obs} (hm : s.mode = .noIds) (g 
     obtain ⟨p, hp, rfl⟩ := hn
     exact g'.empty hm' p hp
   refine ⟨?_, ?_, hsrv⟩
-  · rcases op_trichotomy op with ⟨ref, u, k, rfl⟩ | ⟨k, rfl⟩ | ⟨hp, hr⟩
+  · rcases op_trichotomy op with ⟨ref, u, k, rfl⟩ | ⟨k, rfl⟩ | he | ⟨hp, hr, hq⟩
     · rcases post_cases h with ⟨_, _, ho, _, _⟩ | ⟨hc, nm, hnm, _, _, _, _, _, _, hslow, hfast⟩
       · subst ho; simp [rejectObs]
       · by_cases hk : k = .slow
@@ -337,8 +404,9 @@ theorem noids_step {s s' : State} {op : Op} {o : Obs} (hm : s.mode = .noIds) (g 
           rw [(hfast hk).2.1]
           cases k <;> simp [hdrOf]
     · exact (release_cases h).2.2.1
-    · exact (quiet_cases h hp hr).2.1
-  · rcases op_trichotomy op with ⟨ref, u, k, rfl⟩ | ⟨k, rfl⟩ | ⟨hp, hr⟩
+    · exact (env_cases h he).2.2.1
+    · exact (quiet_cases h hp hr hq).2.1
+  · rcases op_trichotomy op with ⟨ref, u, k, rfl⟩ | ⟨k, rfl⟩ | he | ⟨hp, hr, hq⟩
     · rcases post_cases h with ⟨_, _, ho, _, _⟩ | ⟨hc, nm, hnm, _, hl, _⟩
       · subst ho; simp [rejectObs]
       · have ha : ref = .absent := by
@@ -351,7 +419,8 @@ theorem noids_step {s s' : State} {op : Op} {o : Obs} (hm : s.mode = .noIds) (g 
         rw [hl]
         cases k <;> simp [logOf]
     · rw [(release_cases h).2.2.2.1]; simp
-    · rw [(quiet_cases h hp hr).2.2.1]; simp
+    · rw [(env_cases h he).2.2.2.1]; simp
+    · rw [(quiet_cases h hp hr hq).2.2.1]; simp
 
 /-- `noIds` **honours no id**: a POST, GET or DELETE that carries a session id is answered 404, reaches no
 handler and leaves everything as it was. -/
@@ -377,7 +446,7 @@ theorem legacy_hdr {s s' : State} {op : Op} {o : Obs} {h : Name} (hm : s.mode = 
     (hs : modelOp s op = some (s', o)) (hh : o.hdr = some h) :
     ∃ ref u k, op = .post ref u k ∧ isInit k = true ∧ (∀ n, ref.name = some n → h = n) ∧
       (ref = .absent → h = .s (s.next + 1) ∧ s'.next = s.next + 1) := by
-  rcases op_trichotomy op with ⟨ref, u, k, rfl⟩ | ⟨k, rfl⟩ | ⟨hp, hr⟩
+  rcases op_trichotomy op with ⟨ref, u, k, rfl⟩ | ⟨k, rfl⟩ | he | ⟨hp, hr, hq⟩
   · refine ⟨ref, u, k, rfl, ?_⟩
     rcases post_cases hs with ⟨hno, _⟩ | ⟨_, nm, hnm, hn, _, _, _, _, _, hslow, hfast⟩
     · rw [hm] at hno; cases hno
@@ -404,7 +473,8 @@ theorem legacy_hdr {s s' : State} {op : Op} {o : Obs} {h : Name} (hm : s.mode = 
           simp [tempName, hm] at hnm
           exact ⟨hnm.symm, by rw [hn]; simp [hm]⟩
   · rw [(release_cases hs).2.2.1] at hh; cases hh
-  · rw [(quiet_cases hs hp hr).2.1] at hh; cases hh
+  · rw [(env_cases hs he).2.2.1] at hh; cases hh
+  · rw [(quiet_cases hs hp hr hq).2.1] at hh; cases hh
 
 /-- `legacy`: every POST without a session id consumes a fresh id of `GetSessionID` (whether or not the answer
 names it). -/
@@ -608,7 +678,7 @@ theorem shown_le_next {s s' : State} {op : Op} {o : Obs} (g : Good s) (h : model
     simp [names] at hn
     obtain ⟨p, hp, rfl⟩ := hn
     exact g'.ord p hp
-  rcases op_trichotomy op with ⟨ref, u, k, rfl⟩ | ⟨k, rfl⟩ | ⟨hp, hr⟩
+  rcases op_trichotomy op with ⟨ref, u, k, rfl⟩ | ⟨k, rfl⟩ | he | ⟨hp, hr, hq⟩
   · rcases post_cases h with ⟨_, _, ho, _, _⟩ | ⟨_, nm, hnm, hn, hl, _, _, _, _, hslow, hfast⟩
     · subst ho; exact ⟨by simp [rejectObs], by simp [rejectObs], hsrv⟩
     · have hnm' : nameOrd nm ≤ s'.next := by rw [hn]; exact temp_le_next hnm
@@ -624,19 +694,21 @@ theorem shown_le_next {s s' : State} {op : Op} {o : Obs} (g : Good s) (h : model
         rw [this]; exact hnm'
   · obtain ⟨_, _, hh, hl, _⟩ := release_cases h
     exact ⟨by simp [hh], by simp [hl], hsrv⟩
-  · obtain ⟨_, hh, hl, _⟩ := quiet_cases h hp hr
+  · obtain ⟨_, _, hh, hl, _⟩ := env_cases h he
+    exact ⟨by simp [hh], by simp [hl], hsrv⟩
+  · obtain ⟨_, hh, hl, _⟩ := quiet_cases h hp hr hq
     exact ⟨by simp [hh], by simp [hl], hsrv⟩
 
 /-- The monitor's bookkeeping follows the model. -/
 structure Rel (s : State) (ms : MState) : Prop where
   mode : ms.mode = s.mode
   es : ms.es = s.es
-  inprog : s.slow.length ≤ ms.inprog
+  inprog : s.slow.length + s.closing.length ≤ ms.inprog
   seen : ms.seen ≤ s.next
 
 theorem answer_model {s s' : State} {op : Op} {o : Obs} (h : modelOp s op = some (s', o)) :
     chkAnswer s.mode op o.status = none := by
-  rcases op_trichotomy op with ⟨ref, u, k, rfl⟩ | ⟨k, rfl⟩ | ⟨hp, hr⟩
+  rcases op_trichotomy op with ⟨ref, u, k, rfl⟩ | ⟨k, rfl⟩ | he | ⟨hp, hr, hq⟩
   · rcases post_cases h with ⟨hm, hr, ho, _, _⟩ | ⟨hc, nm, _, _, _, _, _, _, _, hslow, hfast⟩
     · subst ho; simp [chkAnswer, hm, hr, rejectObs]
     · have hc' : ¬(s.mode = .noIds ∧ ref ≠ .absent) := hc
@@ -652,6 +724,7 @@ theorem answer_model {s s' : State} {op : Op} {o : Obs} (h : modelOp s op = some
         · rename_i hx; simp at hx; exact absurd hx hc'
         · split <;> simp
   · simp [chkAnswer]
+  · exact (env_cases h he).2.2.2.2.2.2.2.2.2.2.1
   · cases op <;> simp only [modelOp] at h
     case post ref u k => exact absurd rfl (hp ref u k)
     case release k => exact absurd rfl (hr k)
@@ -667,6 +740,7 @@ theorem answer_model {s s' : State} {op : Op} {o : Obs} (h : modelOp s op = some
     case tick n => simp [chkAnswer]
     case fault f => simp [chkAnswer]
     case abandon k => simp [chkAnswer]
+    case close ref => simp [isEnv] at hq
     all_goals simp at h
 
 theorem hdr_model {s s' : State} {ms : MState} {op : Op} {o : Obs} (g : Good s) (r : Rel s ms)
@@ -692,7 +766,7 @@ theorem log_model {s s' : State} {op : Op} {o : Obs} (g : Good s) (h : modelOp s
     chkLog s.mode op o.log = none := by
   by_cases he : o.log = []
   · simp [chkLog, he]
-  · rcases op_trichotomy op with ⟨ref, u, k, rfl⟩ | ⟨k, rfl⟩ | ⟨hp, hr⟩
+  · rcases op_trichotomy op with ⟨ref, u, k, rfl⟩ | ⟨k, rfl⟩ | hev | ⟨hp, hr, hq⟩
     · rcases post_cases h with ⟨_, _, ho, _, _⟩ | ⟨hc, nm, hnm, _, hl, _⟩
       · subst ho; simp [rejectObs] at he
       · have hserved : served s.mode (.post ref u k) = true := by
@@ -728,10 +802,11 @@ theorem log_model {s s' : State} {op : Op} {o : Obs} (g : Good s) (h : modelOp s
               simp [Ref.name] at hrn; subst hrn
               simp [tempName] at ht; exact ht.symm
     · exact absurd (release_cases h).2.2.2.1 he
-    · exact absurd (quiet_cases h hp hr).2.2.1 he
+    · exact absurd (env_cases h hev).2.2.2.1 he
+    · exact absurd (quiet_cases h hp hr hq).2.2.1 he
 
 theorem book_model {s s' : State} {ms : MState} {op : Op} {o : Obs} (r : Rel s ms)
-    (h : modelOp s op = some (s', o)) : s'.slow.length ≤ bookInprog ms o := by
+    (h : modelOp s op = some (s', o)) : s'.slow.length + s'.closing.length ≤ bookInprog ms o := by
   have h1 := inprog_step h
   have h2 := r.inprog
   simp only [bookInprog]
